@@ -10,6 +10,7 @@ package c27
 
 import (
 	"encoding/json"
+	"errors"
 	"fmt"
 	"os"
 	"path/filepath"
@@ -35,6 +36,7 @@ type op struct {
 	Pack string `json:"pack"`
 	Sid  int    `json:"sid"`
 	St   string `json:"st"`
+	Fail string `json:"fail"` // "" | "prompt" (client writes of this call fail) | "report" (first backend write fails)
 }
 
 type hist struct {
@@ -104,8 +106,14 @@ func (b backendWriter) WritePacket(pk proto.Packet) error {
 	} else {
 		b.p.reports = append(b.p.reports, map[string]any{"id": -1, "st": fmt.Sprintf("%T", pk)})
 	}
+	if b.p.failReport { // injected fault: this (attempted, logged) write is refused, once
+		b.p.failReport = false
+		return errInjected
+	}
 	return nil
 }
+
+var errInjected = errors.New("verif: injected write failure")
 func (b backendWriter) Write([]byte) error { return nil }
 
 // fakePlayer implements resourcepack.Player.
@@ -115,6 +123,9 @@ type fakePlayer struct {
 	prompts  []string
 	reports  []map[string]any
 	kicks    int
+	// injected faults for the current call
+	failPrompt bool
+	failReport bool
 }
 
 func (p *fakePlayer) ID() uuid.UUID { return packID(99) }
@@ -129,6 +140,9 @@ func (p *fakePlayer) WritePacket(pk proto.Packet) error {
 		p.prompts = append(p.prompts, name)
 	} else {
 		p.prompts = append(p.prompts, fmt.Sprintf("?%T", pk))
+	}
+	if p.failPrompt { // injected fault: the (attempted, logged) write is refused
+		return errInjected
 	}
 	return nil
 }
@@ -179,6 +193,9 @@ type result struct {
 
 // call runs one operation on the real handler under the watchdog.
 func (s *session) call(mode string, o op, watchdog time.Duration) result {
+	s.p.mu.Lock()
+	s.p.failPrompt, s.p.failReport = o.Fail == "prompt", o.Fail == "report"
+	s.p.mu.Unlock()
 	done := make(chan result, 1)
 	go func() {
 		var r result
@@ -226,13 +243,16 @@ func replay(ver int, mode string, h []op, watchdog time.Duration) (recs []tracef
 	for i, o := range h {
 		r := s.call(mode, o, watchdog)
 		prompts, reports := s.p.take()
-		rec := tracefmt.Rec{"ev": "op", "op": o.Op, "pack": o.Pack, "sid": o.Sid, "st": o.St,
+		rec := tracefmt.Rec{"ev": "op", "op": o.Op, "pack": o.Pack, "sid": o.Sid, "st": o.St, "fail": o.Fail,
 			"returned": r.returned || r.panicked, "panicked": r.panicked,
 			"prompts": prompts, "reports": reports, "handled": r.handled}
 		if r.panicked {
 			rec["panic"] = r.panicMsg
 		}
 		recs = append(recs, rec)
+		if o.Fail != "" {
+			return recs, -1 // after a refused write the client's state is not defined: the history ends
+		}
 		if !r.returned {
 			// a hung or panicked call ends the history: the handler's state is no longer defined
 			if !r.panicked {
